@@ -6,6 +6,5 @@ export CARGO_NET_OFFLINE=true
 mkdir -p .cache work replays evidence
 (cd harness && cargo build --offline 2>&1 | tail -3)
 # function graphs extracted from the running code (regenerated model part)
-./.cache/harness-target/debug/h264harness tables > .cache/Tables.lean.new
-if ! cmp -s .cache/Tables.lean.new lean/H264/GeneratedTables.lean; then cp .cache/Tables.lean.new lean/H264/GeneratedTables.lean; fi
+./.cache/harness-target/debug/h264harness tables | python3 tools/split_tables.py lean/H264
 (cd lean && lake build H264 driver gen 2>&1 | grep -E "error|Build completed|✖" | tail -5)
